@@ -914,6 +914,28 @@ func (u *Unit) resolveModifies(st *State, ct *Contract, env *SpecEnv) []modItem 
 			out = append(out, modItem{heap: "XC!counter", sort: SInt, ref: x.S})
 			continue
 		}
+		if strings.HasPrefix(m, "allmaps ") {
+			// allmaps x.f: the contents of every map that shares key and value sorts with x.f (whole arrays)
+			e, err := parseSpec(strings.TrimSpace(m[8:]))
+			if err != nil {
+				u.eng.specError("%s: bad modifies item %q", env.what, m)
+				continue
+			}
+			q := false
+			st.noFacts++
+			x := u.specExpr(st, e, env, &q)
+			st.noFacts--
+			if _, ok := types.Unalias(x.T).Underlying().(*types.Map); ok {
+				dom, val, ks, vs := u.mapNames(x.T)
+				out = append(out, modItem{heap: dom, sort: arrSort(ks, SBool)}, modItem{heap: val, sort: arrSort(ks, vs)})
+			} else if xk, xv, ok := xsyncMapTypes(x.T); ok {
+				dom, val, ks, vs := u.xmapNames(xk, xv)
+				out = append(out, modItem{heap: dom, sort: arrSort(ks, SBool)}, modItem{heap: val, sort: arrSort(ks, vs)})
+			} else {
+				u.eng.specError("%s: modifies %s: not a map", env.what, m)
+			}
+			continue
+		}
 		if strings.HasPrefix(m, "global ") {
 			name := strings.TrimSpace(m[7:])
 			if o := env.pkg.Types.Scope().Lookup(name); o != nil {
@@ -1298,6 +1320,7 @@ func (u *Unit) callAsserts(st *State, x *ast.CallExpr) {
 		return
 	}
 	key := fmt.Sprintf("%s#%d", calleeShortName(x), u.callOrd[x])
+	cutStart := -1
 	for _, ca := range u.ct.CallAsserts {
 		if ca.Text != key {
 			continue
@@ -1306,6 +1329,17 @@ func (u *Unit) callAsserts(st *State, x *ast.CallExpr) {
 		env := u.specEnvLocal(st, x.Pos(), 0)
 		env.what = u.name + " at call " + key
 		g, q := u.evalSpecBool(st, ca.E, env, false)
+		if cutStart >= 0 && st.entryLen > 0 && st.entryLen <= cutStart {
+			// a later assertion of the same site is first attempted from the entry facts and the assertions
+			// already proved here alone (a proof from fewer hypotheses is a proof)
+			u.nextFocus = append(append([]string{}, st.pc[:st.entryLen]...), st.pc[cutStart:]...)
+		}
 		u.oblige(st, fmt.Sprintf("at-call(%s).assert.%d", key, ca.N), "call-assert", ca.E.String(), g, q)
+		u.nextFocus = nil
+		// proved here, known from here on (a cut: later assertions and the postconditions may rely on it)
+		if cutStart < 0 {
+			cutStart = len(st.pc)
+		}
+		st.assume(g)
 	}
 }
